@@ -1,14 +1,25 @@
 #!/bin/bash
-# runs every seeded change against the quick check of its property on a scratch clone; writes seeded/RESULTS.md
+# runs every seeded change against the quick check of its property on a scratch clone, for each seed in $SEEDS (default "1");
+# writes seeded/RESULTS.md.  V = VIOLATION with a concrete failing input, N = VIOLATION ... no-failing-input-found, MISSED = check passed
 cd "$(dirname "$(readlink -f "$0")")/.."
+SEEDS=${SEEDS:-1}
 out=seeded/RESULTS.md
-echo "# Seeded changes vs quick checks (tools/run_seeded.sh, $(date -u +%F))" > $out
+echo "# Seeded changes vs quick checks (tools/run_seeded.sh, seeds: $SEEDS, $(date -u +%F))" > $out
 echo "" >> $out
-echo "| change | property | result |" >> $out
+echo "| change | property | result per seed ($SEEDS) |" >> $out
 echo "|---|---|---|" >> $out
 for d in seeded/C*-*; do
   id=$(basename $d); p=${id%%-*}
-  r=$(tools/trymut.sh $d/patch.diff $p 2>&1 | grep "^\[$p\]" | sed 's/|/\\|/g' | cut -c1-160)
-  echo "| $id | $p | $r |" | tee -a $out
+  row=""
+  for s in $SEEDS; do
+    r=$(VERIF_SEED=$s tools/trymut.sh $d/patch.diff $p 2>&1 | grep "^\[$p\]")
+    case "$r" in
+      *no-failing-input-found*) row="$row N";;
+      *VIOLATION*) row="$row V";;
+      *"OK property"*) row="$row MISSED";;
+      *) row="$row ?($r)";;
+    esac
+  done
+  echo "| $id | $p |$row |" | tee -a $out
 done
 rm -rf /tmp/repo_mut
